@@ -326,10 +326,10 @@ func genWellFormed(r *rng) request {
 		}
 		return request{method: "POST", path: "/totp/validate", body: jsonObj(f)}
 	case 3, 4:
-		f["counter"] = pick(r, []uint64{0, 1, 2, 1 << 32, 1<<63 + 5, 1<<64 - 1, r.next() >> uint(r.intn(64))})
+		f["counter"] = pick(r, []uint64{0, 1, 2, 1 << 32, 1<<63 + 5, 1<<64 - 1, r.next() >> uint(r.intn(64)), dictInt(r) + uint64(r.intn(5)) - 2})
 		return request{method: "POST", path: "/hotp/generate", body: jsonObj(f)}
 	case 5:
-		f["counter"] = pick(r, []uint64{0, 1, 2, 7, 1 << 32, r.next() >> uint(r.intn(64))})
+		f["counter"] = pick(r, []uint64{0, 1, 2, 7, 1 << 32, r.next() >> uint(r.intn(64)), dictInt(r) + uint64(r.intn(5)) - 2})
 		f["code"] = code()
 		if r.intn(2) == 0 {
 			f["skew"] = pick(r, []uint64{0, 1, 2, 10, 11})
@@ -551,6 +551,7 @@ func main() {
 	driver := flag.String("driver", "/verif/lean/.lake/build/bin/driver", "")
 	repo := flag.String("repo", "/repo", "")
 	flag.Parse()
+	buildDict()
 	tmp, err := os.MkdirTemp("", "restcorr")
 	if err != nil {
 		fmt.Println(`{"error":"mktemp"}`)
